@@ -90,10 +90,10 @@ macro_rules! stream {
 	};
 }
 
-stream!(MutatedCorpus, "mutated-corpus", 12_000, 600_000, 120, mutgen::mutated_corpus);
-stream!(FaultedPrograms, "faulted-programs", 6_000, 300_000, 1800, mutgen::faulted_program);
-stream!(TokenSoup, "token-soup", 12_000, 600_000, 200, mutgen::token_soup);
-stream!(ModuleSets, "module-sets", 2_000, 100_000, 4000, mutgen::module_set);
+stream!(MutatedCorpus, "mutated-corpus", 80_000, 800_000, 120, mutgen::mutated_corpus);
+stream!(FaultedPrograms, "faulted-programs", 40_000, 400_000, 1800, mutgen::faulted_program);
+stream!(TokenSoup, "token-soup", 80_000, 800_000, 200, mutgen::token_soup);
+stream!(ModuleSets, "module-sets", 12_000, 120_000, 4000, mutgen::module_set);
 
 struct Exhaustive;
 impl Exhaustive
@@ -208,12 +208,12 @@ impl Check for C02
 	{
 		false
 	}
-	fn judge_source(&self, stream: &str, files: &[(String, String)], _ctx: &RunCtx) -> Option<CaseOut>
+	fn source_level(&self, stream: &str) -> bool
 	{
-		if stream == "known-defect-probes"
-		{
-			return None;
-		}
+		stream != "known-defect-probes"
+	}
+	fn judge_source(&self, _stream: &str, files: &[(String, String)], _ctx: &RunCtx) -> Option<CaseOut>
+	{
 		let mut out = CaseOut::default();
 		if !files.is_empty()
 		{
